@@ -17,12 +17,7 @@ PY = "/venv/bin/python"
 # property -> (technique, what is decided (text), what is not decided (note))
 CLAIMS: dict[str, tuple[str, str, str]] = {}
 
-NOT_APPLICABLE = {
-    "C22": "joins/meets/widening/queries of strided intervals are arithmetic over runtime bounds (containment "
-    "of pseudo_join/least_upper_bound/widen, twelve geometric meet cases with a Diophantine solver, exactness of "
-    "eval/cardinality); no clause is visible in the shape of the code and a frozen-formula check would alarm on "
-    "any behaviour-preserving rewrite. The only shape clause (min/max polarity) is checked under C24.",
-}
+NOT_APPLICABLE = {}  # C22 was listed here until the divisibility interpretation (C21.joinstride, C22.widen) gave it a decidable clause
 
 
 def claim(prop, technique, text, note):
